@@ -36,9 +36,8 @@ ASSUMPTIONS = ['thread pool lemma: pthread_create and the mediator semaphore are
   'tier S: one call of one real state-machine function from an arbitrary 64-bit state word (restricted only by the caller contract: what the calling owner holds) and arbitrary width in [1,4094]; at most 2 interfering replacements of the word by other threads',
                'kevent-workloop role (BASE_WLH) excluded: not compiled on this platform',
                'target-queue push, +2 reference retain/release and QoS-override slow path are counting stubs']
-LEVEL_TEXT = 'Bounded symbolic model checking of the real queue code. Tier S: each state-machine function of the hand-off protocol (_dispatch_queue_drain_try_unlock, _dispatch_queue_wakeup, _dispatch_queue_invoke_finish, _dispatch_lane_class_barrier_complete, the uncontended sync completion) is run once from ALL 2^64 state words permitted by its caller contract, all widths, with up to two arbitrary interfering updates by other threads; the solver decides the no-lost-wakeup / no-double-drive lemmas for every value. Tier H: every operation sequence up to length 3 (thorough: 4) over {async, barrier_async, sync, barrier_sync, async_and_wait, group_async, worker} on serial and concurrent queues and a chained target runs through the full real call tree with pool workers executed inline; exactly-once, no stranded item, sync returns, async does not wait are asserted at every step and at quiescence.'
-LEVEL_NOTE = 'Interleavings are represented by interference on the state word (tier S) and by sequential histories with inline workers (tier H); genuinely concurrent schedules of whole API calls are out of reach of this tool chain (DESIGN 2.4). Weak CAS never fails spuriously in tier H. Thread-pool growth: only the accounting of _dispatch_root_queue_poke(_slow) (tier S lemma S_root_queue_poke); the workqueue monitor and the real thread pool are not covered. Root-queue push, allocation, futex and client callout are stubs.'
-
+LEVEL_TEXT = 'Bounded symbolic model checking of the real queue code. Tier S: each state-machine function of the hand-off protocol (_dispatch_queue_drain_try_unlock, _dispatch_queue_wakeup, _dispatch_queue_invoke_finish, _dispatch_lane_class_barrier_complete, the uncontended sync completion) is run once from ALL 2^64 state words permitted by its caller contract, all widths, with up to two arbitrary interfering updates by other threads; the solver decides the no-lost-wakeup / no-double-drive lemmas for every value. Tier H: every operation sequence up to length 3 (thorough: 4) over {async, barrier_async, sync, barrier_sync, async_and_wait, group_async, worker} on serial and concurrent queues and a chained target runs through the full real call tree with pool workers executed inline; exactly-once, no stranded item, sync returns, async does not wait are asserted at every step and at quiescence. Tier Q (real interleavings, sequentialised threads): two producers running the real _dispatch_queue_push_item against a drainer running the real _dispatch_queue_get_head / _dispatch_queue_pop_head with a context switch possible before every atomic access: every item dequeued exactly once, list empty at the end, the drainer never stranded behind an unlinked enqueuer, the push that found the list empty reports it. Tier H additionally covers a serial queue targeting a custom concurrent queue (sync waiters handed off and redirected onto the target).'
+LEVEL_NOTE = 'Interleavings are represented by interference on the state word (tier S) and by sequential histories with inline workers (tier H); genuinely concurrent schedules of whole API calls are out of reach of this tool chain (DESIGN 2.4). Weak CAS never fails spuriously in tier H. Thread-pool growth: only the accounting of _dispatch_root_queue_poke(_slow) (tier S lemma S_root_queue_poke); the workqueue monitor and the real thread pool are not covered. Root-queue push, allocation, futex and client callout are stubs. Tier Q is bounded to 3 rounds x 3 threads x <=12 visible steps (2 items).'
 # ---------------------------------------------------------------- tier H: bounded histories (case split over operation sequences)
 from hist_spec import HH
 from seqs import seqs
@@ -62,3 +61,4 @@ def _h(tier_q, tier_t):
     hs += [HH(x, bottomconc=True) for x in ocq] + [HH(x, bottomconc=True, tiers=('thorough',)) for x in oc3 + oc(4) if x not in ocq]
     return hs
 HARNESSES += _h(None, None)
+ASSUMPTIONS = list(ASSUMPTIONS) + ['tier Q: sequentialised model threads over the real code (every translated function resumable; a context switch is possible before every atomic access and every blocking / kernel call); the scheduler runs a bounded number of rounds in which each unfinished thread executes a solver-chosen number of visible steps, followed by a deterministic tail; interleavings needing more context switches than rounds x threads are outside']
